@@ -283,13 +283,14 @@ class IEval:
         raise KeyError(op)
 
 
-def int_equivalent(t1, t2, boolean=False, max_ops=4):
+def int_equivalent(t1, t2, boolean=False, max_ops=4, assume=None):
     """comparison-only integer terms: equal for every weak (unsigned) ordering of the operands x every position of
-    the sign boundary?  True / (False, description, v1, v2) / None"""
+    the sign boundary?  True / (False, description, v1, v2) / None.  assume: a comparison-only boolean term; orderings in which it is false are outside the
+    domain and skipped"""
     if not (in_int_fragment(t1) and in_int_fragment(t2)):
         return None
     lanes = []
-    for t in (t1, t2):
+    for t in (t1, t2) + ((assume,) if assume is not None else ()):
         for x in tm.walk(t):
             if x.op == 'in' and x not in lanes:
                 lanes.append(x)
@@ -303,6 +304,8 @@ def int_equivalent(t1, t2, boolean=False, max_ops=4):
                 env[l] = (r, r - nr if r >= cut else r)
             e = IEval(env)
             try:
+                if assume is not None and not e.b(assume):
+                    continue
                 a = e.b(t1) if boolean else e.v(t1)
                 b = e.b(t2) if boolean else e.v(t2)
             except KeyError:
